@@ -162,7 +162,12 @@ def explore_task(pid, tier, idx, prefix, seed):
             except V.Violation as v:
                 viol = (v.what, v.model)
             except V.UnwindLimit as e:
-                res["error"] = "unwinding limit reached (inconclusive): %s" % e
+                if getattr(inst, "unwind_is_violation", False) and ctx._check():
+                    # termination is the property: an exhausted unwinding bound is a violation candidate, decided by
+                    # replaying the solver's inputs on the real code under a wall-clock bound
+                    viol = ("no termination within the unwinding bound: %s" % e, ctx.solver.model())
+                else:
+                    res["error"] = "unwinding limit reached (inconclusive): %s" % e
             except V.Unsupported as e:
                 res["error"] = "unsupported construct (inconclusive): %s\n%s" % (e, traceback.format_exc(limit=12))
             except (KeyboardInterrupt, SystemExit, MemoryError):
@@ -353,6 +358,10 @@ def run_check(pid, tier, jobs=None):
         json.dump(dict(property=pid, tier=tier, instance=inst.name, params=inst.params, what=v["what"],
                        inputs=v["inputs"], native=v["native"], native_detail=v["native_detail"]),
                   open(rp, "w"), indent=1, default=str)
+        if v["what"].startswith("no termination") and v["native"] != "hang":
+            errors.append("instance %s: unwinding bound exhausted but the real code terminates on the solver's inputs (native=%s): "
+                          "bound too small — inconclusive, replay=%s" % (inst.name, v["native"], rp))
+            continue
         confirmed = v["native"] in ("violated", "hang") or (
             v["native"] == "exception" and v["what"].startswith("uncaught")
             and v["native_detail"].split(":")[0] == v["what"][len("uncaught "):].split(":")[0]
